@@ -114,6 +114,8 @@ def plan(seed, subbatch):
         # a lifespan next to the collapsing timeframe: the surviving buckets are still the full resampled ones
         # (not for a Hexital member: its manager is derived from trimmed base candles, the known C08 finding)
         lifespan = tf_s * sub_rng(seed, "lifespan-k").randint(2, 30)
+        if sub_rng(seed, "life-frac").random() < 0.4:
+            lifespan += sub_rng(seed, "life-frac-k").randint(1, max(1, tf_s - 1))    # not a whole number of buckets
         fired["lifespan_configured"] += 1
     offset = cfg.choice((None, None, None, 60, 330, -210, 345))
     neighbours = sample_neighbours(sub_rng(seed, "neighbours"), tf, offset)
